@@ -41,9 +41,15 @@ func init() {
 	// binsig sig=TERM|INT: one idle keep-alive HTTP/1.1 connection and one exchange in flight, then the signal
 	registerOp("binsig", func(a []string) string {
 		sig := syscall.SIGTERM
+		var again syscall.Signal
 		for _, t := range a {
-			if t == "sig=INT" {
+			switch t {
+			case "sig=INT":
 				sig = syscall.SIGINT
+			case "again=INT":
+				again = syscall.SIGINT
+			case "again=TERM":
+				again = syscall.SIGTERM
 			}
 		}
 		dir, err := os.MkdirTemp(e2eTmpRoot, "binsig-")
@@ -118,7 +124,21 @@ func init() {
 		for i := 0; i < 100 && b.get("slow") == nil; i++ {
 			time.Sleep(10 * time.Millisecond)
 		}
+		var held net.Conn
+		if again != 0 {
+			// a connection in the middle of SENDING its request keeps the graceful shutdown waiting (the exchange in flight ends
+			// at once: its context is cancelled): a drain window of 400 ms
+			if held, err = dial(); err == nil {
+				io.WriteString(held, "GET /held HTTP/1.1\r\nHost: example.test\r\n")
+				time.Sleep(40 * time.Millisecond)
+				time.AfterFunc(400*time.Millisecond+40*time.Millisecond, func() { held.Close() })
+			}
+		}
 		cmd.Process.Signal(sig)
+		if again != 0 {
+			// an impatient operator: the same or the other signal once more while the exchange in flight is still draining
+			time.AfterFunc(100*time.Millisecond, func() { cmd.Process.Signal(again) })
+		}
 		time.AfterFunc(300*time.Millisecond, func() { close(release) })
 		exit := "timeout"
 		select {
